@@ -75,7 +75,7 @@ def cases(tier, seed):
     for t in range(200 if thorough else 60):
         n = int(rs.randint(4, nmax + 1))
         out.append({'kind': 'nav', 'n': n, 'p': float(rs.choice([.15, .25, .4, .7])), 'gs': int(rs.randint(1 << 30)),
-                    'dk': ['euclid', 'euclid', 'adversarial', 'intties', 'hopdist'][t % 5], 'w': ['bin', 'real', 'int'][t % 3],
+                    'dk': ['euclid', 'infedges', 'adversarial', 'intties', 'hopdist', 'euclid', 'infedges'][t % 7], 'w': ['bin', 'real', 'int'][t % 3],
                     'disc': t % 5 in (0, 4), 'dirL': t % 7 == 3})
     for g in G.structured_und(9, seeds=(seed,)):
         out.append({'kind': 'nav', 'g': g, 'gs': seed, 'dk': 'euclid', 'w': 'bin', 'disc': False})
@@ -190,6 +190,10 @@ def nav_inputs(case):
     pts = rs.rand(n, 2)
     if case['dk'] == 'euclid':
         D = np.sqrt(((pts[:, None, :] - pts[None, :, :]) ** 2).sum(-1))
+    elif case['dk'] == 'infedges':    # euclidean, but infinitely far apart across a third of the existing connections
+        D = np.sqrt(((pts[:, None, :] - pts[None, :, :]) ** 2).sum(-1))
+        m = np.triu((L != 0) | (L.T != 0), 1) & (rs.rand(n, n) < .35)
+        D[m | m.T] = np.inf
     elif case['dk'] == 'adversarial':
         D = rs.rand(n, n)
         D = np.triu(D, 1)
@@ -226,8 +230,8 @@ def run_nav(case, bct, REC):
                 if i == j:
                     continue
                 b, w, d = PLb[i, j], PLw[i, j], PLd[i, j]
-                if np.isinf(b) or np.isinf(w) or np.isinf(d):
-                    nfail += 1
+                if np.isinf(b) or np.isinf(w):      # (a nodal distance may be infinite on a connection that is walked:
+                    nfail += 1                      #  PL_dis alone does not say that the navigation failed)
                     if not (np.isinf(b) and np.isinf(w) and np.isinf(d)):
                         bad_inf = bad_inf or {'i': i, 'j': j, 'PL': [b, w, d]}
                     # the stored partial path of a failed navigation is still a walk from i along existing connections
